@@ -17,7 +17,7 @@ from ..lift import Lifter, Arr, IdxV, Fill, finalize, as_rf, PyConst, SelfObj
 from .control import loc
 from .formulas import make_self, _attempt, check_undecided
 
-HYPER = {"alpha": 1.0, "gamma": 3.0, "l1_ratio": 0.5, "eps": 0.5, "s": 0.25, "INF": float("inf"),
+HYPER = {"alpha": 1.0, "gamma": 3.0, "l1_ratio": 0.5, "eps": 0.5, "s": 0.25, "INF": 1e30,
          "#P": 1.0, "#T": 1.0, "#G": 1.0}
 ARRAY_VALS = {"weights": 2.0 / 3.0, "weights_groups": 0.7, "weights_features": 0.4, "alphas": 1.0}
 
@@ -69,12 +69,11 @@ def evaluate(rf, env):
     def ev_poly(p):
         tot = 0.0
         for m, c in p.items():
+            vals = [(ev_atom(a), e) for a, e in m]
+            if any(v == 0 and e > 0 for v, e in vals):
+                continue          # 0 * inf = 0 here: a vanishing indicator kills the term
             t = float(c)
-            for a, e in m:
-                v = ev_atom(a)
-                if v == float("inf") and t == 0:
-                    t = 0.0
-                    break
+            for v, e in vals:
                 t *= v ** e
             tot += t
         return tot
@@ -130,18 +129,21 @@ class PenaltyModel:
 
     def subdiff(self):
         f = self.cls.find_method("subdiff_distance")
-        ws = Arr(("P",), lambda k: IdxV(k, extent="P"))
+        # the working set maps positions k to coordinates ws(k): an accessor that mixes
+        # the two kinds (grad[j], weights[idx]) lifts to a different term
+        ws = Arr(("S",), lambda k: IdxV(("ws", k), extent="P"))
+        gpos = Arr(("S",), lambda k: el("g", k))
 
         def run():
-            v = self.L.call_function(f, [self.w(), self.g(), ws], self_obj=self.so())
+            v = self.L.call_function(f, [self.w(), gpos, ws], self_obj=self.so())
             v = finalize(v) if isinstance(v, Fill) else v
-            return as_rf(v.at("j0"))
+            return as_rf(v.at("k0"))
         return _attempt(self.err, "subdiff_distance", run)
 
     def prox1d(self):
         f = self.cls.find_method("prox_1d")
         return _attempt(self.err, "prox_1d", lambda: as_rf(self.L.call_function(
-            f, [sym("x"), sym("s"), IdxV("j0", extent="P")], self_obj=self.so())))
+            f, [sym("x"), sym("s"), IdxV(("ws", "k0"), extent="P")], self_obj=self.so())))
 
     def alpha_max(self):
         f = self.cls.find_method("alpha_max")
@@ -159,7 +161,7 @@ def variants(prog, cls):
     return [dict(zip(bools, v)) for v in itertools.product([False, True], repeat=len(bools))] or [{}]
 
 
-W_ATOM = ("el", "w", ("j0",))
+W_ATOM = ("el", "w", (("ws", "k0"),))
 W_WITNESS = [-5.0, -2.0, -0.5, 0.0, 0.5, 2.0, 5.0]
 G_WITNESS = [-2.0, -0.3, 0.3, 2.0]
 
@@ -209,7 +211,7 @@ def r_deriv_pen(A, ctx, scope, rule="R-DERIV-PEN"):
                 und.append((pm.tag, pm.err))
                 continue
             seen = set()
-            g = el("g", "j0")
+            g = el("g", "k0")
             for wv in W_WITNESS:
                 for gv in G_WITNESS:
                     env = {"w": wv, "g": gv}
@@ -441,8 +443,10 @@ def r_alphamax(A, ctx, scope, rule="R-ALPHAMAX"):
             continue
         # split k into index-free and index-dependent factors
         from ..algebra import subst_index
-        kg = subst_index(k, "j0", ("$", 95))
-        free = k if "j0" not in k.free_indices() else None
+        kg = subst_index(k, "k0", ("$", 95))
+        kg = substitute(kg, {a: atom_rf(("el", a[1], (("$", 95),))) for a in kg.all_atoms()
+                             if a[0] == "el" and a[2] == (("ws", ("$", 95)),)})
+        free = k if "k0" not in k.free_indices() else None
         if free is not None:
             expect = atom_rf(("fn", "amax", fn("abs", el("g", ("$", 95))).key())) / free
         else:
@@ -566,4 +570,5 @@ def r_red(A, ctx, scope, rule="R-RED"):
                        loc=dm.method_loc(meth), data=dict(group=show_rf(gg), scalar=show_rf(ref)))
             for l_, e_ in err.items():
                 ctx.note(f"{rule}: {gname}.{l_} not lifted ({e_[:100]})")
+                check_undecided(ctx, rule, [(gname, l_, e_)])
     ctx.floor(rule, n, scope.get("floor", 20))
